@@ -84,6 +84,7 @@ def parseModes (s : S) (c : Bytes) : Bool → Bytes → List Bytes → S
             | some p => parseModes { s with mem := AL.insert s.mem (c, a) (applyPriv p op m) } c op rest more
             | none => parseModes s c op rest args
           | [] => parseModes s c op rest args
+        else if m == 98 || m == 101 || m == 73 then parseModes s c op rest args.tail
         else parseModes s c op rest args
 
 def step (s : S) : Op → S × Ret
